@@ -299,9 +299,23 @@ func (o Op) String(u *Universe) string {
 
 // HistString renders a history.
 func HistString(u *Universe, h []Op) string {
-	s := make([]string, len(h))
-	for i, o := range h {
-		s[i] = o.String(u)
+	var s []string
+	for i := 0; i < len(h); i++ {
+		j := i
+		for j < len(h) && h[j].Kind == "add" {
+			j++
+		}
+		if j-i > 8 { // long run of adds (limit scenarios)
+			s = append(s, fmt.Sprintf("add ×%d (%s, %s, … %s)", j-i, u.TxName(h[i].Tx), u.TxName(h[i+1].Tx), u.TxName(h[j-1].Tx)))
+			i = j - 1
+			continue
+		}
+		o := h[i]
+		if o.Kind == "mark" && len(o.Txs)+len(o.Evicted) > 12 {
+			s = append(s, fmt.Sprintf("mark(%d txs %s…, %d evicted)", len(o.Txs), u.Names(o.Txs[:min(3, len(o.Txs))]), len(o.Evicted)))
+			continue
+		}
+		s = append(s, o.String(u))
 	}
 	return strings.Join(s, "; ")
 }
